@@ -252,7 +252,7 @@ func (g *Gen) query(o *Obl, extraHyp string, model bool) string {
 	if extraHyp != "" {
 		fmt.Fprintf(&b, "(assert %s)\n", extraHyp)
 	}
-	fmt.Fprintf(&b, "(assert (not %s))\n(check-sat)\n", o.Goal)
+	fmt.Fprintf(&b, "(assert (not %s))\n(check-sat)\n", o.SkGoal)
 	if model {
 		b.WriteString("(get-model)\n")
 	}
